@@ -82,7 +82,8 @@ def run_partition(job):
     params = part.get('params', {})
     lim = job['limits']
     ctx = core.Ctx(max_paths=lim['max_paths'], max_time=lim['max_time'],
-                   max_steps=part.get('max_steps', lim['max_steps']))
+                   max_steps=part.get('max_steps', lim['max_steps']),
+                   logic=part.get('logic', lim.get('logic', "QF_BV")))
     core.CTX = ctx
     ctx.export = []
     ctx.export_every = lim.get('export_every', 0)
